@@ -272,6 +272,7 @@ func corpusGoGen() []*modSpec {
 		mk("go-unions-shared-prefix", "package models\n\ntype Shape1 interface{ is1() }\ntype Shape2 interface{ is2() }\n\ntype A struct{ X int }\n\nfunc (A) is1() {}\nfunc (A) is2() {}\n\ntype S struct {\n\tV1 Shape1\n\tV2 Shape2\n}\n"),
 		mk("go-embedded-shadowed-field", "package models\n\ntype Base struct{ F0 []int }\n\ntype T struct {\n\tBase\n\tF0 int16\n}\n"),
 		mk("go-enum-array-columns", "package models\n\ntype Color uint8\n\nconst (\n\tRed Color = iota\n\tGreen\n)\n\ntype Big int64\n\nconst (\n\tB0 Big = iota\n\tB1\n)\n\ntype Small int16\n\nconst (\n\tS0 Small = iota\n\tS1\n)\n\ntype Colors []Color\ntype Bigs []Big\ntype Smalls []Small\ntype Pair [2]Color\ntype Flags []bool\ntype Names []string\ntype Ratios []float64\ntype Ints []int\ntype Int32s []int32\n\ntype T struct {\n\tId int64\n\tC Colors\n\tB Bigs\n\tS Smalls\n\tP Pair\n\tF Flags\n\tN Names\n\tR Ratios\n\tI Ints\n\tJ Int32s\n}\n"),
+		mk("go-link-nullable-unique-key", "package models\n\nimport \"database/sql\"\n\ntype IdBadge int64\ntype IdUser int64\n\ntype OptUser struct {\n\tValid bool\n\tId IdUser\n}\n\ntype Badge struct {\n\tId IdBadge\n\tName string\n}\n\ntype User struct {\n\tId IdUser\n\tName string\n}\n\n// gomacro:SQL ADD UNIQUE(Holder)\n// gomacro:SQL ADD UNIQUE(IdBadge)\ntype BadgeOwner struct {\n\tIdBadge IdBadge\n\tHolder sql.NullInt64 `gomacro-sql-foreign:\"User\"`\n\tOwner OptUser `gomacro-sql-foreign:\"User\"`\n}\n\n// gomacro:SQL ADD UNIQUE(Owner)\ntype Medal struct {\n\tId int64\n\tOwner OptUser `gomacro-sql-foreign:\"User\"`\n\tIdBadge IdBadge\n}\n"),
 		mk("go-date-column", "package models\n\nimport \"time\"\n\ntype Date time.Time\ntype Moment time.Time\n\ntype T struct {\n\tId int64\n\tD Date\n\tM Moment\n\tT time.Time\n}\n"),
 		mk("go-json-columns", "package models\n\ntype Inner struct{ A string; B []int }\ntype L []Inner\ntype M map[string]int\n\ntype T struct {\n\tId int64\n\tI Inner\n\tL L\n\tM M\n}\n"),
 		mk("go-subpackage-types", "package models\n\nimport \"example.com/org/models/sub\"\n\ntype T struct {\n\tId int64\n\tE sub.E\n\tS sub.S\n\tL []sub.S\n}\n", modFile{"sub/sub.go", "package sub\n\ntype E int\n\nconst (\n\tEA E = iota\n\tEB\n)\n\ntype S struct{ X, Y int }\n"}),
